@@ -80,7 +80,7 @@ func (w *World) contractFunctions() map[string]*ssa.Function {
 		}
 		fn := w.funcOf(n)
 		for fn != nil {
-			out[fn.String()] = fn
+			out[nameOf(fn)] = fn
 			fn = fn.Parent()
 		}
 	}
